@@ -173,3 +173,73 @@ def reads_field(body, rv, field, depth=6):
                                     return True
                                 todo.append(({"k": "use", "op": a}, d + 1))
     return False
+
+
+def mpt(ctx, rid, key, body, A, B, M, ok_detail, bad_detail, incl=True, where_bb=None, require=True):
+    """Must-pass-through: every normal-flow path from a block of A to a block of B contains a block
+    of M. A/B/M are block lists. Empty A or B is a missing anchor (fails unless require=False)."""
+    ba = BA.of(body)
+    A, B, M = list(A), list(B), set(M)
+    if not A or not B:
+        return ctx.ob(rid, key, not require, where=body.span, detail="anchor missing (from=%d to=%d via=%d): %s" % (len(A), len(B), len(M), bad_detail))
+    p = ba.path(A, B, avoid=frozenset(M), incl=incl)
+    ok = p is None and bool(M)
+    return ctx.ob(rid, key, ok, where=ctx.where(body, where_bb if where_bb is not None else (p[-1] if p else A[0])),
+                  detail=ok_detail if ok else bad_detail, witness={"path": p[:25] if p else None})
+
+
+def not_reach(ctx, rid, key, body, A, B, ok_detail, bad_detail, avoid=(), incl=True):
+    """No normal-flow path from A to B (optionally avoiding blocks)."""
+    ba = BA.of(body)
+    p = ba.path(list(A), list(B), avoid=frozenset(avoid), incl=incl) if A and B else None
+    return ctx.ob(rid, key, p is None, where=ctx.where(body, p[-1]) if p else body.span,
+                  detail=ok_detail if p is None else bad_detail, witness={"path": p[:25] if p else None})
+
+
+def entry(body):
+    return [0]
+
+
+def ok_returns(body):
+    """Blocks that build the function's `Ok(..)` result (`_0 = Result::Ok{..}`)."""
+    out = []
+    ba = BA.of(body)
+    for i in sorted(ba.live):
+        if body.is_cleanup(i):
+            continue
+        for s in body.blocks[i]["stmts"]:
+            if s["s"] == "assign" and s["place"]["l"] == 0 and not s["place"]["p"] and s["rv"]["k"] == "agg" and s["rv"].get("adt") == "core::result::Result" and s["rv"]["variant"] == "Ok":
+                out.append(i)
+    return out
+
+
+def ret_assign_blocks(body, pred):
+    """Blocks assigning `_0` from an rvalue satisfying pred(rv)."""
+    out = []
+    ba = BA.of(body)
+    for i in sorted(ba.live):
+        if body.is_cleanup(i):
+            continue
+        for s in body.blocks[i]["stmts"]:
+            if s["s"] == "assign" and s["place"]["l"] == 0 and not s["place"]["p"] and pred(s["rv"]):
+                out.append(i)
+    return out
+
+
+def verdict_returns(body, variant):
+    """Blocks where the dirtiness routine's result is set to Ok(Dirtiness::<variant>):
+    `_0 = Ok(move x)` with x assigned a Dirtiness::<variant> aggregate (same or dominating block)."""
+    ba = BA.of(body)
+    out = []
+    for i in ok_returns(body):
+        for s in body.blocks[i]["stmts"]:
+            if s["s"] == "assign" and s["place"]["l"] == 0 and s["rv"]["k"] == "agg":
+                o = s["rv"]["ops"][0]
+                c = op_const(o)
+                l = op_local(o)
+                if l is None:
+                    continue
+                for d in ba.defs.get(l, []):
+                    if d[0] == "stmt" and d[3]["k"] == "agg" and d[3].get("adt") == "deps::Dirtiness" and d[3]["variant"] == variant:
+                        out.append(i)
+    return sorted(set(out))
